@@ -271,9 +271,128 @@ fn write_case(stdfs: bool) -> impl Strategy<Value = WriteCase> {
         })
 }
 
+/// Stdfs only: several append writers on one file (two append handles, append_all, append_line). Every handle
+/// write is flushed at once, so whether or not a handle buffers, the file must hold the old content plus every
+/// chunk in the order the calls were made - an append lands at the end as it is at that moment and never
+/// overwrites what another writer added meanwhile. (Memfs handles work on a private copy and write it back as a
+/// whole; how two writers combine there is not specified and not asserted.)
+/// ops: 0 open A, 1 open B, 2 A.write+flush, 3 B.write+flush, 4 append_all, 5 append_line, 6 drop A, 7 drop B
+pub fn check_append_interleave(prog: &[u8]) -> CaseResult {
+    with_backend(true, |v, dir| {
+        let path = format!("{}/f", dir);
+        let initial = b"init-".to_vec();
+        if let Err(e) = v.write_all(&path, &initial) {
+            ctx().inconclusive(&format!("cannot prepare file on stdfs: {}", e));
+            return Ok(());
+        }
+        let res = catch(|| -> CaseResult {
+            let mut content = initial.clone();
+            let mut hs: [Option<Box<dyn Write>>; 2] = [None, None];
+            let mut n = 0u32;
+            for (step, op) in prog.iter().enumerate() {
+                n += 1;
+                let what;
+                match op % 8 {
+                    x @ (0 | 1) => {
+                        what = "open-append-handle";
+                        if hs[x as usize].is_none() {
+                            hs[x as usize] = Some(v.append(&path).map_err(|e| Failure::new("append-interleave|open-err|stdfs", e.to_string()))?);
+                        }
+                    },
+                    x @ (2 | 3) => {
+                        what = "handle-write";
+                        if let Some(h) = hs[(x - 2) as usize].as_mut() {
+                            let chunk = format!("<{}{}>", if x == 2 { "A" } else { "B" }, n).into_bytes();
+                            h.write_all(&chunk).and_then(|_| h.flush()).map_err(|e| Failure::new("append-interleave|write-err|stdfs", e.to_string()))?;
+                            content.extend_from_slice(&chunk);
+                        }
+                    },
+                    4 => {
+                        what = "append_all";
+                        let chunk = format!("<all{}>", n).into_bytes();
+                        v.append_all(&path, &chunk).map_err(|e| Failure::new("append-interleave|append_all-err|stdfs", e.to_string()))?;
+                        content.extend_from_slice(&chunk);
+                    },
+                    5 => {
+                        what = "append_line";
+                        let line = format!("<line{}>", n);
+                        v.append_line(&path, &line).map_err(|e| Failure::new("append-interleave|append_line-err|stdfs", e.to_string()))?;
+                        content.extend_from_slice(format!("{}\n", line).as_bytes());
+                    },
+                    x => {
+                        what = "handle-drop";
+                        hs[(x - 6) as usize] = None;
+                    },
+                }
+                let got = std::fs::read(&path).unwrap_or_default();
+                if got != content {
+                    return Err(Failure::new(
+                        format!("append-interleave|{}|prefix-altered-or-bytes-lost|stdfs", what),
+                        format!("program {:?} step {}: file holds {:?} want {:?}", prog, step + 1, String::from_utf8_lossy(&got), String::from_utf8_lossy(&content)),
+                    ));
+                }
+            }
+            Ok(())
+        });
+        match res {
+            Ok(r) => r,
+            Err(p) => Err(Failure::new(format!("append-interleave|panic|{}", panic_site(&p)), format!("program {:?} panicked: {}", prog, p))),
+        }
+    })
+}
+
+/// every program of the given length over the 8 ops of `check_append_interleave`
+pub fn run_append_interleave(c: &Ctx, len: u32) {
+    par_for(8u64.pow(len), 64, |i| {
+        let mut prog = vec![];
+        let mut x = i;
+        for _ in 0..len {
+            prog.push((x % 8) as u8);
+            x /= 8;
+        }
+        mark("append-interleave", &serde_json::to_string(&prog).unwrap());
+        c.eval(1);
+        c.class("stdfs:several-append-writers");
+        // non-trivial: a handle writes after another writer extended the file since the handle was opened
+        let mut open = [false; 2];
+        let mut grown_since = [false; 2];
+        let mut nt = false;
+        for o in &prog {
+            match o {
+                0 | 1 => {
+                    if !open[*o as usize] {
+                        open[*o as usize] = true;
+                        grown_since[*o as usize] = false;
+                    }
+                },
+                2 | 3 => {
+                    let k = (*o - 2) as usize;
+                    if open[k] {
+                        if grown_since[k] {
+                            nt = true;
+                        }
+                        grown_since[1 - k] = true;
+                    }
+                },
+                4 | 5 => grown_since = [true, true],
+                x => open[(*x - 6) as usize] = false,
+            }
+        }
+        if nt {
+            c.nontrivial(fp(&("append-interleave", i)));
+        }
+        if i % 4099 == 1 {
+            c.sample(|| json!({"kind":"append-interleave","program":prog}));
+        }
+        c.judge("append-interleave", &prog, check_append_interleave(&prog));
+    });
+    crate::sandbox::cleanup();
+}
+
 pub fn run(c: &Ctx) {
-    c.set_rule("read side: file bytes (0..300) + generated scripts of read(buf 0..64) / seek(Start|Current|End with offsets around 0, around len, negative beyond the start, +-i64::MAX/MIN, u64::MAX) / stream_position / read_to_end, executed in lock step on the handle returned by read() and on std::io::Cursor over the same bytes: same Ok value + bytes / same Err-ness per call and the same position after every call; both backends (Stdfs on tmpfs; resulting offsets above 2^62 excluded there because the kernel rejects them). Write side: data split into generated chunks, flush at generated points, handle dropped after any prefix, for write() and append(), file absent / present before (written in place, moved there, copied there, or moved then copied): after each flush and after drop the file read back must hold exactly the bytes written so far (append: old content + them). Non-trivial = script with an out-of-range seek followed by a read, or a drop without a final flush; distinct by case.");
+    c.set_rule("read side: file bytes (0..300) + generated scripts of read(buf 0..64) / seek(Start|Current|End with offsets around 0, around len, negative beyond the start, +-i64::MAX/MIN, u64::MAX) / stream_position / read_to_end, executed in lock step on the handle returned by read() and on std::io::Cursor over the same bytes: same Ok value + bytes / same Err-ness per call and the same position after every call; both backends (Stdfs on tmpfs; resulting offsets above 2^62 excluded there because the kernel rejects them). Write side: data split into generated chunks, flush at generated points, handle dropped after any prefix, for write() and append(), file absent / present before (written in place, moved there, copied there, or moved then copied): after each flush and after drop the file read back must hold exactly the bytes written so far (append: old content + them). Several append writers (Stdfs only): every program of length 5 (quick) / 6 (thorough) over {open append handle A/B, A/B write+flush, append_all, append_line, drop A/B} on one file: after every step the file holds the old content plus every chunk in call order (an append lands at the current end and never overwrites another writer's bytes). Non-trivial = script with an out-of-range seek followed by a read, or a drop without a final flush; distinct by case.");
     c.assume("std::io::Cursor is the reference for Read+Seek; std::fs semantics on this kernel/tmpfs for the Stdfs side");
+    run_append_interleave(c, c.tier.pick(5, 6));
     let n = c.tier.pick(20_000, 400_000);
     let ns = c.tier.pick(3_000, 40_000);
     for (stdfs, cases, salt) in [(false, n, 700u64), (true, ns, 701)] {
@@ -334,6 +453,10 @@ pub fn replay(kind: &str, case: &Value) -> Option<CaseResult> {
     let r = match kind {
         "read" => Some(check_read(&serde_json::from_value(case.clone()).ok()?)),
         "write" => Some(check_write(&serde_json::from_value(case.clone()).ok()?)),
+        "append-interleave" => {
+            let p: Vec<u8> = serde_json::from_value(case.clone()).ok()?;
+            Some(check_append_interleave(&p))
+        },
         _ => None,
     };
     crate::sandbox::cleanup();
